@@ -15,19 +15,19 @@ import (
 
 func init() {
 	register(&propDef{
-		id: "C04",
+		id:      "C04",
 		explain: "Structural necessary conditions of 'a client call returns the response to its own request': (R1) in the transport's RoundTrip a connection obtained from AcquireConn is, on every path, closed, released to the pool, or handed to the stream-close closure exactly once; (R2) it is released to the pool only on paths where the response was read without error; (R3) inside the stream-close closure the connection is pooled only under a condition that depends on the body having been read to its end (and on the close decision and the caller's error); (R4) in the pipelining client a work item is given back to the pool by the caller only when it was never queued or its completion was received - never after a timeout while the connection goroutines still hold it; the pipeline writer hands every request it wrote either to the reader queue or completes it with an error and stops; (R5) the response-header fields that closure consults (found by reading the closure and its callees on every run) are never overwritten by a header reset/parse before the body stream of the same Response is closed, in any function of the module. Not decided: interleavings, slow or partial servers, byte-level framing of responses (C03's mirror).",
-		run: runC04,
+		run:     runC04,
 	})
 	register(&propDef{
-		id: "C18",
+		id:      "C18",
 		explain: "Structural necessary conditions of 'HostClient never exceeds MaxConns, its connection count is exact, and waiters are served': (E1) connsCount pairing on every path: AcquireConn keeps one unit exactly when it returns a freshly dialled connection; decConnsCount gives back one unit or hands it to exactly one dial goroutine for a waiter; dialConnFor gives the inherited unit back on every dial failure and keeps it with the connection otherwise; CloseConn gives back exactly one unit; (R-bound) the increment is control-dependent on connsCount < maxConns in the same critical section, where maxConns is the configured value or the default; (E8) conns, connsCount, connsWait and connsCleanerRun are only accessed under connsLock, wantConn.conn/err under wantConn.mu; (R-idle) a connection taken from the idle list is removed from it in the same critical section. Not decided: waiter fairness, deadline timing, interleavings.",
-		run: runC18,
+		run:     runC18,
 	})
 	register(&propDef{
-		id: "C38",
+		id:      "C38",
 		explain: "Structural necessary conditions of 'pipelined calls with a deadline return by the deadline': in the deadline call path of the pipelining client every blocking channel operation is a select that includes the call's timer (or has a default); once the timer case of a select was taken no further blocking channel operation is executed before the function returns, the returned error is ErrTimeout, and a work item that was never queued is given back; the queue-overflow error of the non-deadline call is only produced on the default branch of a non-blocking send. Not decided: actual latency, server stalls, goroutine scheduling.",
-		run: runC38,
+		run:     runC38,
 	})
 }
 
@@ -246,7 +246,9 @@ func runC04(p *Prog, r *Report) {
 				}
 			},
 		})
-		x.Filter = func(k string) bool { return strings.HasPrefix(k, "ex0(") || strings.HasPrefix(k, "(") || strings.HasPrefix(k, "v<") }
+		x.Filter = func(k string) bool {
+			return strings.HasPrefix(k, "ex0(") || strings.HasPrefix(k, "(") || strings.HasPrefix(k, "v<")
+		}
 		x.TrackAll = true
 		x.Run(nil)
 		r.Check("R4", "pipeline writer: every work item it takes is handed to the reader queue or completed exactly once; a written request is only completed by the writer when it tears the connection down", bad == 0 && n > 0, p.Pos(wfn.Pos()),
